@@ -12,6 +12,7 @@
    (wildcard_shortcut_refuted) and keys outside the content model raise
    TypeNotFound (undeclared_key_refuted). *)
 From SV Require Import Lib.Base Fam.Schema C01.Marshal C01.Guard C01.MarshalProofs C01.Styles C01.StylesProofs.
+From SV Require Import C01.OptionalProofs C01.Request C01.RequestProofs.
 
 (* 1. element level: unbounded nesting depth, width and list length *)
 Theorem marshal_conforms : forall S xstq v d anc,
@@ -43,6 +44,47 @@ Theorem rpc_conforms : forall S xstq bodyns method parts args,
                rpc_body S xstq bodyns method parts args = MOk body.
 Proof. exact rpc_conforms_l. Qed.
 Print Assumptions rpc_conforms.
+
+(* 2b. the request as a whole: Envelope / Header with the typed header entries the
+   binding declares (soap:header) / Body with the wrapper *)
+Theorem request_conforms : forall S xstq sn dict hs hvs wrapper args,
+  headers_conforming S dict hs hvs = true ->
+  args_conforming S wrapper args = true ->
+  args_lists_ok S wrapper args = true ->
+  exists env, ref_request S xstq sn hs hvs wrapper args = Some env /\
+              request_env S xstq sn dict hs hvs wrapper args = MOk env.
+Proof. exact request_conforms_l. Qed.
+Print Assumptions request_conforms.
+
+Theorem request_body_independent_of_headers : forall S xstq sn d1 d2 hs1 hvs1 hs2 hvs2 wrapper args e1 e2,
+  request_env S xstq sn d1 hs1 hvs1 wrapper args = MOk e1 ->
+  request_env S xstq sn d2 hs2 hvs2 wrapper args = MOk e2 ->
+  match e1, e2 with
+  | XN _ _ _ _ [_; b1], XN _ _ _ _ [_; b2] => b1 = b2
+  | _, _ => False
+  end.
+Proof. exact body_independent_of_headers_l. Qed.
+Print Assumptions request_body_independent_of_headers.
+
+(* 2c. absent optional values: a minOccurs=0 container (sequence/choice/all or
+   group reference) makes every member below it, at any depth of nested
+   containers and whatever the member's own minOccurs, an optional value that
+   is omitted when None; a required member outside such a container is not *)
+Theorem optional_container_reaches_every_member : forall k kids anc ch c,
+  In c (flat_p anc ch (PC k true kids)) -> fchild_anc c = true.
+Proof. exact optional_container_reaches_every_member_l. Qed.
+Print Assumptions optional_container_reaches_every_member.
+
+Theorem members_of_optional_container_omitted : forall S xstq k kids anc ch d a c,
+  In (FE d a c) (flat_p anc ch (PC k true kids)) ->
+  marshal_elem S xstq d a VNone = MOk [] /\ ref_elem S xstq d a VNone = Some [].
+Proof. exact members_of_optional_container_omitted_l. Qed.
+Print Assumptions members_of_optional_container_omitted.
+
+Theorem required_member_not_omitted : forall S xstq d,
+  e_opt d = false -> exists n, marshal_elem S xstq d false VNone = MOk [n].
+Proof. exact required_member_not_omitted_l. Qed.
+Print Assumptions required_member_not_omitted.
 
 (* 3. shape: children in schema order (inherited members first), each declared
    name repeated once per list item; attributes on their owner; xsi:type *)
@@ -106,6 +148,38 @@ Example conforming_nonvacuous_output :
   MOk [XN 1 40 [(ns_xsi, n_type, AQName 2 11); (0, 30, AText 54); (0, 31, AText 50)] None
          [XN 1 20 [] (Some 52) []; XN 1 20 [] (Some 53) []; XN 2 23 [] None [XN 1 20 [] (Some 51) []]]]%N.
 Proof. reflexivity. Qed.
+
+(* an optional sequence two containers deep around required members: None -> omitted *)
+Definition ex_schema_opt : schema :=
+  [ mkC 10 1 None [PC KSeq false [PE (mkE 20 1 true TBuiltin false false false None);
+                                    PC KSeq true [PC KChoice false
+                                                    [PE (mkE 21 1 true TBuiltin false false false None);
+                                                     PE (mkE 22 1 true TBuiltin false false false None)];
+                                                  PE (mkE 23 1 true TBuiltin false false false None)];
+                                    PE (mkE 24 1 true TBuiltin false false false None)]] [] ]%N.
+Example optional_container_nonvacuous :
+  marshal_elem ex_schema_opt true (mkE 40 1 true (TNamed 1 10) false false false None)%N false
+    (VObj None [(20, false, VText 50); (21, false, VNone); (22, false, VNone); (23, false, VNone);
+                (24, false, VText 51)])%N =
+  MOk [XN 1 40 [] None [XN 1 20 [] (Some 50) []; XN 1 24 [] (Some 51) []]]%N.
+Proof. reflexivity. Qed.
+
+(* a request with one typed header entry given through a dict *)
+Example request_nonvacuous :
+  let sn := mkSN 60 61 62 in
+  let h := global_elem 41 1 (TNamed 1 10) in
+  let w := (mkE 40 1 true (TNamed 1 10) false false false None)%N in
+  let hv := (VObj None [(20, false, VText 52); (24, false, VText 53)])%N in
+  let args := [VText 50; VNone; VNone; VNone; VText 51]%N in
+  headers_conforming ex_schema_opt true [h] [hv] = true /\
+  args_conforming ex_schema_opt w args = false /\
+  request_env ex_schema_opt true sn true [h] [hv] (mkE 40 1 true (TNamed 1 10) false false false None)%N
+              [VText 50; VText 54; VNone; VText 55; VText 51]%N =
+  MOk (XN ns_env 60 [] None
+         [XN ns_env 61 [] None [XN 1 41 [] None [XN 1 20 [] (Some 52) []; XN 1 24 [] (Some 53) []]];
+          XN ns_env 62 [] None [XN 1 40 [] None [XN 1 20 [] (Some 50) []; XN 1 21 [] (Some 54) [];
+                                                  XN 1 23 [] (Some 55) []; XN 1 24 [] (Some 51) []]]])%N.
+Proof. cbv. repeat split. Qed.
 
 (* ---- the guard is needed: quirks of the unchanged code outside it ---- *)
 (* a wildcard declared before a named member answers every lookup *)
